@@ -257,6 +257,9 @@ def _parse_composition(
     default = schema.get("default", NotPassed())
     if isinstance(element, ObjectMeta):
         return AllOf(element, default=default)
+    if isinstance(element, Nothing) and not isinstance(default, NotPassed):
+        # `Nothing` takes no keywords, so it cannot carry the default itself.
+        return AllOf(element, default=default)
     if not isinstance(default, NotPassed):
         # Falsy defaults (False, 0, "", [], {}, None) are defaults too.
         element.default = default
